@@ -11,10 +11,12 @@ TECHNIQUE = ("differential property-based testing strict vs. non-strict parsing 
 RULE = ("Hypothesis markup soup x {document, fragment in 45 contexts} x scripting, and for each short document every one of its prefixes (all EOF sites; "
         "longer ones: a spread of 40 cut points). Oracle: non-strict parse records E; strict parse raises exactly html5lib.html5parser.ParseError iff E != [], with "
         "str(e) == constants.E[E[0].code] % E[0].vars, and raises nothing else; every recorded error has a code in constants.E whose template formats with its "
-        "variables and a (line, col) with 1 <= line <= lines+1 and 0 <= col <= len(line). Conforming generated documents record no error. "
+        "variables and a (line, col) with 1 <= line <= lines+1 and 0 <= col <= len(line). Conforming generated documents (explicit, optional tags omitted by the reference rules, and two other conforming spellings: '/>' on void and empty "
+        "foreign elements, single-quoted/unquoted values, upper-case names, space before '>') record no error. Pairs (first, input) on one strict and one non-strict parser object: the "
+        "outcome for the second input equals that of new objects (the strict first parse usually aborts). "
         "Non-trivial = E != []; distinct = distinct (first error code, set of codes) signature; the evidence lists the codes reached.")
 ASSUMPTIONS = ["positions are judged against the newline-normalised input; a column may equal the line length (position after the last character)"]
-SHRINK = {"text": "str"}
+SHRINK = {"text": "str", "first": "str"}
 
 
 def _lines(text):
@@ -30,6 +32,8 @@ def check_case(case):
     if case.get("kind") == "conforming":
         from vf.gen import conforming
         return conforming.check_no_errors(case)
+    if case.get("kind") == "reuse":
+        return check_reuse(case)
     text, container, scripting = case["text"], case.get("container"), bool(case.get("scripting"))
     p = h5.parser("etree", True, strict=False)
     try:
@@ -89,6 +93,43 @@ def check_case(case):
     return Verdict("pass", nontrivial=nontrivial, sig=sig64(codes[0] if codes else None, tuple(sorted(set(codes))), container is None), classes=classes)
 
 
+def _outcome(parser, text):
+    from html5lib.html5parser import ParseError
+    try:
+        parser.parse(text)
+    except ParseError as e:
+        return ("ParseError", str(e))
+    except Exception as e:
+        return (type(e).__name__, str(e)[:100])
+    return ("ok", [(c, pos) for (pos, c, v) in parser.errors])
+
+
+def check_reuse(case):
+    """The same equivalence when the parser objects have parsed something before (a validator loop: one strict parser, many inputs)."""
+    from html5lib import constants
+    first, text = case["first"], case["text"]
+    fresh_n = _outcome(h5.parser("etree", True, strict=False), text)
+    fresh_s = _outcome(h5.parser("etree", True, strict=True), text)
+    pn, ps = h5.parser("etree", True, strict=False), h5.parser("etree", True, strict=True)
+    _outcome(pn, first)
+    aborted = _outcome(ps, first)[0] == "ParseError"
+    used_n, used_s = _outcome(pn, text), _outcome(ps, text)
+    nontrivial = aborted
+    sig = sig64("reuse", first, text)
+    if used_n != fresh_n:
+        return Verdict("fail", "a non-strict parser that parsed %s before records %s for %s; a new one %s" % (short(first, 120), short(used_n, 160), short(text, 160), short(fresh_n, 160)),
+                       "reuse:nonstrict-differs", nontrivial=True)
+    if used_s != fresh_s:
+        return Verdict("fail", "a strict parser that %s on %s before gives %s for %s; a new one %s (non-strict errors: %s)"
+                       % ("aborted" if aborted else "completed", short(first, 120), short(used_s, 160), short(text, 160), short(fresh_s, 160), short(fresh_n, 120)),
+                       "reuse:strict-differs", nontrivial=True)
+    if fresh_n[0] == "ok":
+        if (fresh_n[1] == []) != (used_s[0] == "ok"):
+            return Verdict("fail", "reused strict parser: %s although the non-strict parse records %s; input %s" % (short(used_s, 120), short(fresh_n[1][:2], 120), short(text, 160)),
+                           "reuse:strict-iff", nontrivial=True)
+    return Verdict("pass", nontrivial=nontrivial, sig=sig, classes=["reuse", "reuse-after-abort" if aborted else "reuse-after-complete"])
+
+
 def shards(tier):
     quick = tier == "quick"
     out = [{"kind": "soup", "n": 5000 if quick else 60000} for _ in range(8)]
@@ -96,6 +137,7 @@ def shards(tier):
     try:
         from vf.gen import conforming  # noqa
         out += [{"kind": "conforming", "n": 600 if quick else 8000} for _ in range(4)]
+        out += [{"kind": "reuse", "n": 1500 if quick else 20000} for _ in range(2)]
     except ImportError:
         pass
     return out
@@ -120,6 +162,15 @@ def run_shard(desc, seed, tier):
                 case = {"text": text[:k], "container": container, "scripting": scripting}
                 acc.add(case, check_case(case))
         drive(st.tuples(soup.soup_text(max_items=14), ctx, st.booleans()), fn, desc["n"], seed)
+    elif kind == "reuse":
+        from vf.gen.soup import sized_binary
+        from vf.props.c12 import decode_doc
+
+        def fn(x):
+            a, b = x
+            case = {"kind": "reuse", "first": decode_doc(a)[0], "text": decode_doc(b)[0]}
+            acc.add(case, check_case(case))
+        drive(st.tuples(sized_binary(4, 90), sized_binary(4, 90)), fn, desc["n"], seed)
     else:
         from vf.gen import conforming
         conforming.run_no_error_docs(acc, desc["n"], seed)
